@@ -43,13 +43,28 @@ let ptdoc d =
    | None -> pint 0; pint 0; pint 0; pint 0; pint 0);
   ptstyles d.td_styles; ptstyles d.td_regions; plist ptitem d.td_items
 
+(* the checked transcriptions (Model/TtmlC.v) are what the correspondence runs *)
+exception Model_panic
+let ttml_time_c s fr tr =
+  match ttml_unmarshal_c s with
+  | Ok (Some d) -> Some (ttml_duration d fr tr)
+  | Ok None -> None
+  | _ -> raise Model_panic
+let wdoc_of (d : tdoc) : wdoc =
+  let hs (k, s) = (k, Some { ws_id = s.ts_id; ws_ref = s.ts_ref; ws_inline = Some s.ts_attrs }) in
+  { w_meta = d.td_meta; w_styles = List.map hs d.td_styles; w_regions = List.map hs d.td_regions;
+    w_items = List.map (fun it ->
+      { wi_start = it.ti_st; wi_stop = it.ti_en; wi_region = it.ti_region; wi_style = it.ti_style;
+        wi_inline = Some it.ti_attrs;
+        wi_runs = List.map (List.map (fun r -> { wr_txt = r.tr_txt; wr_style = r.tr_style; wr_inline = Some r.tr_attrs })) it.ti_lines })
+      d.td_items }
 let big = z_of_string "4000000000000000000"
 let in_range z = (match Z.add z big with Zneg _ -> false | _ -> true) && (match Z.add (Z.opp z) big with Zneg _ -> false | _ -> true)
 
 let () =
   (* C07 plain view: TTML sources are library-written, i.e. inside xml_parse's subset *)
-  Drv_plain.register_plain 4 ttml_dec ttml_enc
-    (fun d -> match xml_parse d with Some t -> doc_time_simple t | None -> false);
+  Drv_plain.register_plain 4 ttml_dec2 ttml_enc
+    (fun d -> match xml_parse2 d with Some t -> doc_time_simple t | None -> false);
   register "ttmlopt" (fun r -> let d = rtdoc r in pint 0; ptdoc (ttml_optimize d));
   register "ttmlrenderex" (fun r ->
     let t = rxnode r in
@@ -58,14 +73,14 @@ let () =
   register "ttmlconst" (fun r -> pint (rint r));
   register "ttmltime" (fun r ->
     let s = rstr r in let fr = rz r in let tr = rz r in
-    let res = ttml_time s fr tr in
+    let res = ttml_time_c s fr tr in
     let ok = time_simple s && (match res with Some z -> in_range z | None -> true) in
     if not ok then Buffer.add_string b "NS ";
     (match res with Some z -> pint 0; if ok then pz z | None -> pint 1));
   register "ttmlread" (fun r ->
     let simple = rbool r in
     let root = rxnode r in
-    let res = read_ttml root in
+    let res = read_ttml_c root in
     let ok = simple && doc_time_simple root
              && (match res with Ok d -> List.for_all (fun it -> in_range it.ti_st && in_range it.ti_en) d.td_items | _ -> true) in
     if ok then pres ptdoc res else (Buffer.add_string b "NS "; pres (fun _ -> ()) res));
@@ -78,7 +93,7 @@ let () =
     let data = rstr r in
     match xml_parse2 data with
     | Some t ->
-      let res = read_ttml t in
+      let res = read_ttml_c t in
       let ok = simple && doc_time_simple t
                && (match res with Ok d -> List.for_all (fun it -> in_range it.ti_st && in_range it.ti_en) d.td_items | _ -> true) in
       if ok then pres ptdoc res else (Buffer.add_string b "NS "; pres (fun _ -> ()) res)
@@ -89,13 +104,13 @@ let () =
     | None -> pint 1);
   register "ttmlreadbytes" (fun r ->
     match xml_parse (rstr r) with
-    | Some t -> pres ptdoc (read_ttml t)
+    | Some t -> pres ptdoc (read_ttml_c t)
     | None -> Buffer.add_string b "NOPARSE");
   register "ttmlwritetree" (fun r ->
     let indent = rstr r in
     let d = rtdoc r in
-    pres (fun t -> pxnode (indent_doc indent t)) (write_ttml d));
+    pres (fun t -> pxnode (indent_doc indent t)) (write_ttml_c (wdoc_of d)));
   register "ttmlwrite" (fun r ->
     let indent = rstr r in
     let d = rtdoc r in
-    pres pstr (write_ttml_bytes indent d))
+    pres (fun t -> pstr (print_node_go print_name indent O t)) (write_ttml_c (wdoc_of d)))
